@@ -2319,6 +2319,104 @@ def rule_cache_clobber(chk, P):
 
 
 # ----------------------------------------------------------------------------
+# rule cache-grow-reset: a per-call list cache is emptied before it is refilled, on every path
+# ----------------------------------------------------------------------------
+def _gr_self_attr(e):
+    if isinstance(e, ast.Subscript):
+        e = e.value
+    if isinstance(e, ast.Attribute) and isinstance(e.value, ast.Name) and e.value.id == "self":
+        return e.attr
+    return None
+
+
+def _gr_growths(fn):
+    out = []
+    for st in pf.walk_no_nested(fn):
+        if isinstance(st, ast.Expr) and isinstance(st.value, ast.Call) and isinstance(st.value.func, ast.Attribute) \
+                and st.value.func.attr in ("append", "extend", "insert"):
+            a = _gr_self_attr(st.value.func.value)
+            if a:
+                out.append((a, st))
+        if isinstance(st, ast.AugAssign) and isinstance(st.op, ast.Add) and isinstance(st.value, (ast.List, ast.ListComp)):
+            a = _gr_self_attr(st.target)
+            if a:
+                out.append((a, st))
+    return out
+
+
+def _gr_resets(fn):
+    """statements that re-bind self.A / self.A[k] to a value that does not depend on the old self.A, or clear it"""
+    out = []
+    for st in pf.walk_no_nested(fn):
+        if isinstance(st, ast.Assign):
+            for t in st.targets:
+                a = _gr_self_attr(t)
+                if a and not any(_gr_self_attr(x) == a for x in ast.walk(st.value) if isinstance(x, (ast.Attribute, ast.Subscript))):
+                    out.append((a, st))
+        if isinstance(st, ast.Expr) and isinstance(st.value, ast.Call) and isinstance(st.value.func, ast.Attribute) \
+                and st.value.func.attr == "clear":
+            a = _gr_self_attr(st.value.func.value)
+            if a:
+                out.append((a, st))
+    return out
+
+
+def rule_grow_reset(chk):
+    """A list attribute that a class both grows (`self.A.append/extend`, also `self.A[k].append`) and re-binds to a fresh
+    container outside __init__ is a per-call cache whose consumers index it from 0.  In every public method that grows
+    it (private helpers inlined), every path from the entry to a growth passes a statement that re-binds the attribute
+    (or the slot) to a value independent of its old contents: otherwise a second call on the same object appends to the
+    vectors of the first call and the consumers read the earlier call's data."""
+    from sa import hinline
+    rels = [PLANS, GEN, SDMX, NUMINT, XE]
+    prog = pf.Program(chk.tree, rels)
+    for rel in rels:
+        mod = prog.module(rel)
+        for cname, cls in sorted(mod.classes.items()):
+            meths = [m for m in cls.body if isinstance(m, ast.FunctionDef)]
+            grown = {a for m in meths for a, _ in _gr_growths(m)}
+            caches = grown & {a for m in meths if m.name != "__init__" for a, _ in _gr_resets(m)}
+            if not caches:
+                continue
+            for m in meths:
+                if m.name.startswith("_"):
+                    continue
+                fn = hinline.inline_helpers(m, hinline.class_resolver(prog, mod, cls), depth=3)
+                gs = [(a, st) for a, st in _gr_growths(fn) if a in caches]
+                if not gs:
+                    continue
+                g = cfgm.CFG(fn)
+                rs = {}
+                for a, st in _gr_resets(fn):
+                    rs.setdefault(a, set()).add(id(st))
+                for a in sorted({a for a, _ in gs}):
+                    block = {n.id for n in g.nodes if n.ast is not None and id(n.ast) in rs.get(a, ())}
+                    seen, todo = set(), [g.entry.id]
+                    while todo:
+                        u = todo.pop()
+                        if u in seen or u in block:
+                            continue
+                        seen.add(u)
+                        todo.extend(g.succ[u])
+                    mine = [st for a2, st in gs if a2 == a]
+                    if any(id(st) not in g.by_ast for st in mine):
+                        raise core.AnalysisError("%s:%s.%s: growth of self.%s not found in the control-flow graph" % (
+                            rel, cname, m.name, a))
+                    bad = [st for st in mine if g.by_ast[id(st)].id in seen]
+                    inst = "%s:%s.%s empties self.%s before refilling it on every path" % (rel, cname, m.name, a)
+                    if not bad:
+                        chk.ok("cache-grow-reset", inst)
+                    else:
+                        chk.violation("cache-grow-reset", rel, "%s.%s" % (cname, m.name), "self.%s grown without reset" % a,
+                                      m.lineno,
+                                      "a path from the entry of %s.%s reaches `%s` without re-binding self.%s to a fresh "
+                                      "container (the class resets this list elsewhere, and its consumers index it from 0): "
+                                      "on a second call on the same object the new vectors are appended behind those of the "
+                                      "earlier call, so the consumers read the earlier call's data" % (
+                                          cname, m.name, pf.src(bad[0])[:80], a), instance=inst)
+
+
+# ----------------------------------------------------------------------------
 # rule memo-invalidate: a memoised attribute is reset by every method that changes what it was computed from
 # ----------------------------------------------------------------------------
 def _self_loads(prog, mod, cls, fn, skip=(), _seen=None):
@@ -2443,6 +2541,9 @@ def _analyse_rules(chk):
     chk.guard(rule_plan_init)
     chk.guard(rule_out_shared)
     chk.guard(rule_attr_init)
+    chk.rule("cache-grow-reset", "a per-call list cache is re-bound to a fresh container before it is grown, on every path of every public method")
+    chk.guard(rule_grow_reset)
+    chk.floor("cache-grow-reset", 3, "FracLaplPlan (get_feat, get_occd) and NLDFAuxiliaryPlan (eval_rho_vi_, eval_rho_full, eval_occd_full) list caches")
     chk.floor("plan-init", 8, "12 integrators / force drivers")
     chk.floor("out-shared", 2, "functions producing several results with out=")
     chk.floor("attr-init", 3, "integrator attributes set by build / initialize_feature_generators")
@@ -2490,6 +2591,9 @@ def _linspace_chunks(text):
 
 def mutants(tree):
     return [
+        Mutant("NLDF plan l=1 cache no longer emptied before the refill", PLANS,
+               "        self._clear_l1_cache(spin)\n        self._cache_l1_vectors(f_qg[start:], rho_data[1:4], spin)\n",
+               "        self._cache_l1_vectors(f_qg[start:], rho_data[1:4], spin)\n", count=1, expect="cache-grow-reset"),
         Mutant("stale loop variable in nr_rks_nldf", NUMINT, "nelec[idm] += den.sum()", "nelec[i] += den.sum()",
                expect="batch-index"),
         Mutant("stale loop variable in rks_grad.get_vxc_nldf", RKSG, "excsum[idm] += np.dot(den, exc)",
